@@ -66,7 +66,7 @@ pub fn gen(tier: &str, r: &mut Rng) -> Vec<String> {
     }
     let ns = budget(tier, 100, 3000);
     for i in 0..ns {
-        let o = GenOpts { max_models: 2, max_chains: 3, max_res: 3, max_conf: 2, max_atoms: if i % 10 == 0 { 30 } else { 4 }, aniso: false, coord_step: U, ..GenOpts::default() };
+        let o = GenOpts { max_models: 2, max_chains: 3, max_res: 3, max_conf: 2, max_atoms: [4, 7, 9, 13, 30][i % 5], aniso: false, coord_step: U, ..GenOpts::default() };
         let mut s = gen_pdb(r, &o);
         for m in s.models.iter_mut() { for c in m.chains.iter_mut() { for x in c.residues.iter_mut() { for f in x.confs.iter_mut() { for a in f.atoms.iter_mut() {
             a.x = r.range(-512, 512) * U; a.y = r.range(-512, 512) * U; a.z = r.range(-512, 512) * U;
